@@ -2,6 +2,10 @@ import TakVerif.Impl.PTN
 import TakVerif.Impl.PTNInst
 import TakVerif.Proofs.PTNIter
 import TakVerif.Proofs.PTNRender
+import TakVerif.Proofs.PTNScan
+import TakVerif.Proofs.PTNNec
+import TakVerif.Proofs.PTNRealSafe
+import TakVerif.Proofs.ScannerRefine
 import TakVerif.Proofs.PTNLink
 
 /-! C12: PTN files — positional lookup (`Iterator`, `PositionAtMove`) and render/parse.
@@ -147,48 +151,201 @@ theorem positional_lookup_linked (basis : Array W) (input : Bytes) (f : File) (p
   have h2 := positionAtMove_spec (realEnv basis) f p0 hinit hnz n c
   exact ⟨iterator_spec (realEnv basis) f p0 hinit hnz, h2.1, h2.2⟩
 
-/-! ### Render / Parse
+/-! ### Render / Parse, at the byte level
 
-`renderSafe env p` (decidable, `Proofs/PTNRender.lean`) is the fragment on which the text form is lossless:
-tag names without space or `]`, tag values without `"` or `]`; comments without `}` (and shorter than the
-scanner's 64 KiB token limit); annotations over `?!'`; results among the 25 strings `resultRE` matches; move
-numbers in the `int` range; and every move `moveSafe`: `FormatMove` gives one clean token (no white space,
-not starting with `{` or `[`, not ending in `.` or an annotation character, not a result string, within the
-token limit) that `ParseMove` reads back as the same move — for the real functions that is C11's round trip. -/
+`render env f` is the byte string `Render` writes; `parsePTN env` is the model of `ParsePTN` on bytes: BOM,
+`readEvents` over the buffered reader, then `readMoves` = `bufio.Scanner` (64 KiB window model, `ErrTooLong`)
+driving `splitMoves` (white space = `unicode.IsSpace` on Latin-1, incl. 0x85 / 0xA0) and the token switch.
 
-/-- **Token level.**  Parsing the rendering of a `renderSafe` value succeeds and gives back the same tags
-and the same ops — move numbers, moves with their annotations, comments, results, in order — up to the
-`src` field (the parser records each op's token there; `Render` and the tests ignore it).  A byte-order
-mark in front changes nothing. -/
+The safety predicate (`Impl/PTNSafe.lean`, decidable; the driver evaluates it in the `ptnsafe` op and the Go
+harness evaluates a Go transcription of it beside the real round trip):
+* `dataSafe env f` — what `Render` can represent: tag names without space or `]`; tag values without `"` or `]`;
+  comments without `}` and at most 65534 bytes long; modifiers over `?!'` with `FormatMove` output + modifiers
+  at most 65535 bytes; results among the 25 strings of `resultRE`; (model only) numbers within `int`.
+* `movesSafe env f` — every recorded move is `moveSafe`: `FormatMove` gives one clean token (not empty, not
+  starting with `{` / `[`, not ending in `.` or `?!'`, no white space, not a result string) that `ParseMove`
+  reads back as the same move.  This speaks about the two functions, not about the data;
+  `moveSafe_real` discharges it for the byte-level models of the real functions on every move of legal shape. -/
+
+/-- **The window model of `bufio.Scanner` is not an assumption.**  `readMovesScanner` (`Proofs/ScannerRefine.lean`)
+is `readMoves` with `bufio.Scanner.Scan` inlined as the standard library writes it: a buffer that starts empty,
+becomes 4096 bytes and doubles up to `MaxScanTokenSize`; reads that deliver any number of bytes ≥ 1 that fit
+(`chunk`, arbitrary); the split function called on whatever is held, with `atEOF` only after a read has returned
+`io.EOF` (a reader that returns data and `io.EOF` in the same call is not modelled; `os.File`, `bytes.Reader`,
+`strings.Reader` never do); `ErrTooLong` when the buffer is full at its maximal size.  For every input and every sequence of read
+sizes it returns what the window model returns, so `ParsePTN` over it is `parsePTN` — every theorem of this
+section holds for it unchanged. -/
+theorem scanner_window_model (env : Env) (chunk : Nat → Nat) :
+    (∀ rest, readMovesScanner env chunk (2 * rest.length + 2) 0 (ScanState.init rest) =
+      readMoves env (rest.length + 1) rest) ∧
+    (∀ input, parsePTNScanner env chunk input = parsePTN env input) :=
+  ⟨readMovesScanner_init env chunk, parsePTNScanner_eq env chunk⟩
+
+/-- **Byte level: render then parse gives the value back exactly when the value is `dataSafe`.**
+For a file whose moves are `moveSafe`: `ParsePTN (Render p)` succeeds with the same tags and the same ops
+(move numbers, moves with their annotations, comments, results, in order; equality up to the `src` field, which
+the parser fills with the token text) if and only if `dataSafe env p`.  So each clause of `dataSafe` is
+necessary: outside it the parse fails or returns a different value. -/
+theorem render_parse_bytes (env : Env) (f : File) (hm : movesSafe env f = true) :
+    dataSafe env f = true ↔
+      ∃ g, parsePTN env (render env f) = .ok g ∧ g.tags = f.tags ∧ g.ops.map Op.clearSrc = f.ops.map Op.clearSrc := by
+  constructor
+  · intro hd
+    have hs : renderSafe env f = true := by rw [renderSafe_iff, hd, hm]; rfl
+    refine ⟨_, parse_render env f hs, rfl, ?_⟩
+    simp only [List.map_map]
+    congr 1
+    funext op
+    exact clearSrc_withSrc env op
+  · rintro ⟨g, hp, ht, ho⟩
+    exact dataSafe_necessary env f g hm hp ht ho
+
+/-- a byte-order mark in front of `Render`'s output never changes what `ParsePTN` returns -/
+theorem render_parse_bom (env : Env) (f : File) :
+    parsePTN env (0xEF :: 0xBB :: 0xBF :: render env f) = parsePTN env (render env f) :=
+  parse_bom_render_eq env f
+
+/-- the same equivalence for the text with a byte-order mark in front -/
+theorem render_parse_bytes_bom (env : Env) (f : File) (hm : movesSafe env f = true) :
+    dataSafe env f = true ↔
+      ∃ g, parsePTN env (0xEF :: 0xBB :: 0xBF :: render env f) = .ok g ∧ g.tags = f.tags ∧
+        g.ops.map Op.clearSrc = f.ops.map Op.clearSrc := by
+  rw [render_parse_bom]
+  exact render_parse_bytes env f hm
+
+/-- **What comes back, in full** (safe side): the same tags, and each op with its rendered token as `src`;
+identically with a byte-order mark in front. -/
 theorem render_parse_tokens (env : Env) (f : File) (hs : renderSafe env f = true) :
     ∃ g, parsePTN env (render env f) = .ok g ∧
       parsePTN env (0xEF :: 0xBB :: 0xBF :: render env f) = .ok g ∧
-      g.tags = f.tags ∧ g.ops.map Op.clearSrc = f.ops.map Op.clearSrc := by
-  refine ⟨_, parse_render env f hs, parse_bom_render env f hs, rfl, ?_⟩
+      g.tags = f.tags ∧ g.ops = f.ops.map (withSrc env) ∧ g.ops.map Op.clearSrc = f.ops.map Op.clearSrc := by
+  refine ⟨_, parse_render env f hs, parse_bom_render env f hs, rfl, rfl, ?_⟩
   simp only [List.map_map]
   congr 1
   funext op
   exact clearSrc_withSrc env op
 
-/-- **Byte level (partial).**  `Render`'s output is a fixed point: rendering what was parsed from it gives
-the same bytes again.
-Not covered (hence `_partial`): (1) values outside `renderSafe` — a comment containing `}`, a tag value
-containing `"`, a tag name with a space do *not* survive (the real code agrees with the model on them in the
-correspondence run, counted as `reparse.differs-unsafe`); (2) `Render (ParsePTN b) = b` for an arbitrary
-file `b` is false (white space and quoting are normalised) and no theorem relates the two beyond what
-`render_parse_tokens` says about `Render`'s own output; (3) `moveSafe` is a hypothesis about
-`FormatMove`/`ParseMove`, discharged here only for the concrete examples. -/
-theorem render_parse_bytes_partial (env : Env) (f : File) (hs : renderSafe env f = true) :
-    ∃ g, parsePTN env (render env f) = .ok g ∧ render env g = render env f := by
-  refine ⟨_, parse_render env f hs, ?_⟩
-  simp only [render, List.flatMap_map]
-  congr 3
-  funext op
-  cases op <;> rfl
+/-- **The scanner's token limit, exactly.**  For a value whose characters are all representable (tags
+`tagSafe`, every op `opShape` and `moveSafe`): `ParsePTN (Render p)` returns the value if every token fits the
+64 KiB window (`opFits`: `FormatMove` output + modifiers ≤ 65535 bytes, comment text ≤ 65534 bytes) and
+`bufio.ErrTooLong` — an error, nothing is returned — as soon as one does not. -/
+theorem render_parse_window (env : Env) (f : File) (htags : f.tags.all tagSafe = true)
+    (hshape : f.ops.all opShape = true) (hm : movesSafe env f = true) :
+    parsePTN env (render env f) =
+      if f.ops.all (opFits env) = true then .ok ⟨f.tags, f.ops.map (withSrc env)⟩
+      else .error (.illegal "bufio.Scanner: token too long") := by
+  apply parse_render_exact env f (fun t ht => (List.all_eq_true.mp htags) t ht)
+  intro op hop
+  simp only [opClean, Bool.and_eq_true]
+  exact ⟨(List.all_eq_true.mp hshape) op hop, (List.all_eq_true.mp hm) op hop⟩
 
-/-- the full byte-level statement one would like, kept visible: every successfully parsed file re-renders
-to something that parses to the same value.  Not proved (needs `renderSafe` of parser output, which fails
-for tag values with inner quotes). -/
+/-- **Whatever the input bytes**, a file that `ParsePTN` returns has: tag names without space / `]`, tag values
+without `]`; comments without `}` that fit the window; modifiers over `?!'`; results among the 25 result
+strings; numbers within `int`.  (Hence a value violating one of these clauses can never be the result of any
+parse, rendered or not.)  The one clause of `dataSafe` a parsed file can violate is the `"` inside a tag value:
+`render_parse_bytes_statement_false`. -/
+theorem parse_output_shape (env : Env) (b : Bytes) (f : File) (h : parsePTN env b = .ok f) :
+    f.tags.all tagParsed = true ∧ f.ops.all opShape = true ∧ f.ops.all commentFits = true := by
+  obtain ⟨h1, h2⟩ := parsePTN_parsed env b f h
+  refine ⟨List.all_eq_true.mpr h1, List.all_eq_true.mpr fun op hop => ?_, List.all_eq_true.mpr fun op hop => ?_⟩
+  · have := h2 op hop; simp only [parsedOK, Bool.and_eq_true] at this; exact this.1
+  · have := h2 op hop; simp only [parsedOK, Bool.and_eq_true] at this; exact this.2
+
+/-- **Parsed files re-render losslessly** (the true part of `render_parse_bytes_statement`): if `ParsePTN`
+returned `f` for some input, no tag value of `f` contains `"`, the moves of `f` are `moveSafe` and their
+re-rendered tokens fit the window, then `ParsePTN (Render f)` returns `f` again (up to `src`). -/
+theorem reparse_stable (env : Env) (b : Bytes) (f : File) (h : parsePTN env b = .ok f)
+    (hq : ∀ t ∈ f.tags, t.value.all (· != 34) = true) (hm : movesSafe env f = true)
+    (hfit : ∀ s m mods, Op.move s m mods ∈ f.ops → (env.formatMove m).length + mods.length < maxScanTokenSize) :
+    ∃ g, parsePTN env (render env f) = .ok g ∧ g.tags = f.tags ∧ g.ops.map Op.clearSrc = f.ops.map Op.clearSrc := by
+  apply (render_parse_bytes env f hm).mp
+  obtain ⟨h1, h2⟩ := parsePTN_parsed env b f h
+  simp only [dataSafe, Bool.and_eq_true, List.all_eq_true]
+  constructor
+  · intro t ht
+    have hp := h1 t ht
+    have hv := hq t ht
+    simp only [tagParsed, Bool.and_eq_true, List.all_eq_true] at hp
+    simp only [List.all_eq_true] at hv
+    simp only [tagSafe, Bool.and_eq_true, List.all_eq_true]
+    exact ⟨hp.1, fun x hx => ⟨hv x hx, hp.2 x hx⟩⟩
+  · intro op hop
+    have hp := h2 op hop
+    simp only [parsedOK, Bool.and_eq_true] at hp
+    simp only [opData, Bool.and_eq_true]
+    refine ⟨hp.1, ?_⟩
+    cases op with
+    | moveNumber s n => rfl
+    | move s m mods => simp only [opFits, decide_eq_true_eq]; exact hfit s m mods hop
+    | comment s c => exact hp.2
+    | result s r => rfl
+
+/-- **With the real `FormatMove` / `ParseMove`** (`PTN.realEnv`: their byte-level models, C11) nothing is assumed
+about the two functions: for every file whose recorded moves have a legal shape (for some board size),
+render-then-parse gives the value back iff it is `dataSafe`. -/
+theorem render_parse_bytes_real (basis : Array W) (f : File)
+    (hlegal : ∀ s m mods, Op.move s m mods ∈ f.ops → ∃ size, Notation.LegalShape size m) :
+    dataSafe (realEnv basis) f = true ↔
+      ∃ g, parsePTN (realEnv basis) (render (realEnv basis) f) = .ok g ∧ g.tags = f.tags ∧
+        g.ops.map Op.clearSrc = f.ops.map Op.clearSrc := by
+  apply render_parse_bytes
+  simp only [movesSafe, List.all_eq_true]
+  intro op hop
+  cases op with
+  | move s m mods =>
+    obtain ⟨size, hsz⟩ := hlegal s m mods hop
+    exact moveSafe_real basis size m hsz
+  | moveNumber s n => rfl
+  | comment s c => rfl
+  | result s r => rfl
+
+/-- a recorded game as the tools write and read it: clean tags, every move of legal shape (for some board size)
+with annotations over `?!'` (at most 65523 of them), comments without `}` of at most 65534 bytes, results among
+the 25 result strings, numbers within `int` -/
+def GameFile (f : File) : Prop :=
+  (∀ t ∈ f.tags, tagSafe t = true) ∧
+  ∀ op ∈ f.ops,
+    match op with
+    | .moveNumber _ n => -(2 ^ 63 : Int) ≤ n ∧ n < 2 ^ 63
+    | .move _ m mods => (∃ size, Notation.LegalShape size m) ∧ mods.all isModifier = true ∧ mods.length ≤ 65523
+    | .comment _ c => c.all (· != 125) = true ∧ c.length ≤ 65534
+    | .result _ r => matchResult r = true
+
+/-- **The property as stated, for recorded games, with the real `FormatMove` / `ParseMove`**: rendering a
+`GameFile` and parsing the bytes again — with or without a byte-order mark — yields the same tags, move numbers,
+moves with annotations, comments and results.  No hypothesis about any function is left. -/
+theorem render_parse_games (basis : Array W) (f : File) (h : GameFile f) :
+    ∃ g, parsePTN (realEnv basis) (render (realEnv basis) f) = .ok g ∧
+      parsePTN (realEnv basis) (0xEF :: 0xBB :: 0xBF :: render (realEnv basis) f) = .ok g ∧
+      g.tags = f.tags ∧ g.ops.map Op.clearSrc = f.ops.map Op.clearSrc := by
+  obtain ⟨htags, hops⟩ := h
+  have hs : renderSafe (realEnv basis) f = true := by
+    simp only [renderSafe, Bool.and_eq_true, List.all_eq_true]
+    refine ⟨htags, fun op hop => ?_⟩
+    have ho := hops op hop
+    cases op with
+    | moveNumber s n =>
+      simp only [opSafe, opData, opShape, opFits, opMove, Bool.and_true, Bool.and_eq_true, decide_eq_true_eq]
+      exact ho
+    | move s m mods =>
+      obtain ⟨⟨size, hsz⟩, hmods, hlen⟩ := ho
+      have hl := formatMove_length_le size m hsz
+      have hfm : (realEnv basis).formatMove m = Tak.PTN.formatMove m false := rfl
+      simp only [opSafe, opData, opShape, opFits, opMove, Bool.and_eq_true, decide_eq_true_eq, hfm, maxScanTokenSize]
+      exact ⟨⟨hmods, by omega⟩, moveSafe_real basis size m hsz⟩
+    | comment s c =>
+      simp only [opSafe, opData, opShape, opFits, opMove, Bool.and_true, Bool.and_eq_true, decide_eq_true_eq,
+        maxScanTokenSize]
+      have h2 := ho.2
+      exact ⟨ho.1, decide_eq_true (by omega)⟩
+    | result s r =>
+      simp only [opSafe, opData, opShape, opFits, opMove, Bool.and_true]
+      exact ho
+  obtain ⟨g, h1, h2, h3, _, h5⟩ := render_parse_tokens (realEnv basis) f hs
+  exact ⟨g, h1, h2, h3, h5⟩
+
+/-- the statement one might hope for — every successfully parsed file re-renders to something that parses to
+the same value.  It is **false** (next theorem); `reparse_stable` is the part that holds. -/
 def render_parse_bytes_statement (env : Env) : Prop :=
   ∀ b f, parsePTN env b = .ok f → ∃ g, parsePTN env (render env f) = .ok g ∧
     g.tags = f.tags ∧ g.ops.map Op.clearSrc = f.ops.map Op.clearSrc
@@ -224,5 +381,140 @@ def exFile2 : File :=
    exFile.ops ++ [.move [] ⟨0, 0, Facts.mtSlideRight, 1#32⟩ [33, 63], .comment [] [123, 32, 46], .result [] [82, 45, 48]]⟩
 
 example : renderSafe exEnv exFile2 = true := by decide
+example : dataSafe exEnv exFile2 = true ∧ movesSafe exEnv exFile2 = true := by decide
+
+/-- the hypothesis of `render_parse_bytes_real` holds for the moves of the example (on a 3x3 board) -/
+example : ∀ s m mods, Op.move s m mods ∈ exFile2.ops → ∃ size, Notation.LegalShape size m := by
+  intro s m mods h
+  refine ⟨3, ?_⟩
+  simp only [exFile2, exFile, List.cons_append, List.nil_append, List.mem_cons, Op.move.injEq, List.mem_nil_iff,
+    or_false, reduceCtorEq, false_or] at h
+  rcases h with ⟨_, rfl, _⟩ | ⟨_, rfl, _⟩ | ⟨_, rfl, _⟩ | ⟨_, rfl, _⟩ <;> decide
+
+/-- the example record is a `GameFile` -/
+example : GameFile exFile2 := by
+  refine ⟨by decide, ?_⟩
+  intro op hop
+  simp only [exFile2, exFile, List.cons_append, List.nil_append, List.mem_cons, List.mem_nil_iff, or_false] at hop
+  rcases hop with rfl | rfl | rfl | rfl | rfl | rfl | rfl | rfl | rfl | rfl
+  all_goals first
+    | (exact ⟨by decide, by decide⟩)
+    | (exact ⟨⟨3, by decide⟩, by decide, by decide⟩)
+    | (show matchResult _ = true; decide)
+
+/-! #### each clause of `dataSafe` is needed: one-tag / one-op values just outside it (`movesSafe` holds for all
+of them), and what render-then-parse does with them -/
+
+/-- outcome of render-then-parse: `some true` = the value came back, `some false` = another value, `none` = error -/
+def roundTrip (env : Env) (f : File) : Option Bool :=
+  match parsePTN env (render env f) with
+  | .ok g => some (g.sameAs f)
+  | .error _ => none
+
+private def oneTag (name value : String) : File := ⟨[⟨Go.lit name, Go.lit value⟩], []⟩
+private def oneOp (op : Op) : File :=
+  ⟨[⟨tagSize, [51]⟩], [.moveNumber [] 1, .move [] ⟨0, 0, Facts.mtPlaceFlat, 0#32⟩ [], op, .move [] ⟨1, 1, Facts.mtPlaceFlat, 0#32⟩ []]⟩
+private def str (s : String) : Bytes := Go.lit s
+
+-- tag name: a space splits it, `]` ends the tag early; a tab or `[` or `"` is harmless
+example : roundTrip exEnv (oneTag "A B" "v") = some false ∧ roundTrip exEnv (oneTag "A]" "v") = none ∧
+    roundTrip exEnv (oneTag "A\t[\"" "v") = some true := by decide
+-- tag value: `"` is dropped by `Render`, `]` ends the tag early; space, `[`, `'` are harmless
+example : roundTrip exEnv (oneTag "N" "x\"y") = some false ∧ roundTrip exEnv (oneTag "N" "\"") = some false ∧
+    roundTrip exEnv (oneTag "N" "x]y") = none ∧ roundTrip exEnv (oneTag "N" "a [b' ") = some true := by decide
+-- comment: `}` ends it early (the rest is then read as moves); `{`, white space, Latin-1 spaces are harmless
+example : roundTrip exEnv (oneOp (.comment [] (str "a}b"))) = none ∧ roundTrip exEnv (oneOp (.comment [] (str "} {"))) = some false ∧
+    roundTrip exEnv (oneOp (.comment [] (str "{ a\n" ++ [0x85, 0xA0]))) = some true := by decide
+-- modifiers: only `?`, `!`, `'` are split off a move token (`*` and whatever follows an annotation character are
+-- swallowed by `ParseMove`, a final `.` makes a move number)
+example : roundTrip exEnv (oneOp (.move [] ⟨2, 2, Facts.mtPlaceFlat, 0#32⟩ (str "*"))) = some false ∧
+    roundTrip exEnv (oneOp (.move [] ⟨2, 2, Facts.mtPlaceFlat, 0#32⟩ (str "?."))) = none ∧
+    roundTrip exEnv (oneOp (.move [] ⟨2, 2, Facts.mtPlaceFlat, 0#32⟩ (str "?x"))) = some false ∧
+    roundTrip exEnv (oneOp (.move [] ⟨2, 2, Facts.mtPlaceFlat, 0#32⟩ (str "!?'"))) = some true := by decide
+-- result: anything but the 25 strings is read as something else (a move, a number, nothing) or rejected
+example : roundTrip exEnv (oneOp (.result [] (str "c3"))) = some false ∧ roundTrip exEnv (oneOp (.result [] (str "2."))) = some false ∧
+    roundTrip exEnv (oneOp (.result [] [])) = some false ∧ roundTrip exEnv (oneOp (.result [] (str "2-0"))) = none ∧
+    roundTrip exEnv (oneOp (.result [] (str "1/2-R"))) = some true := by decide
+-- numbers: every `int` comes back, the extremes included
+example : roundTrip exEnv (oneOp (.moveNumber [] (-(2 ^ 63)))) = some true ∧ roundTrip exEnv (oneOp (.moveNumber [] (2 ^ 63 - 1))) = some true ∧
+    roundTrip exEnv (oneOp (.moveNumber [] (2 ^ 63))) = none := by decide
+-- and the predicate says so
+example : dataSafe exEnv (oneTag "A B" "v") = false ∧ dataSafe exEnv (oneTag "N" "x\"y") = false ∧
+    dataSafe exEnv (oneOp (.comment [] (str "} {"))) = false ∧
+    dataSafe exEnv (oneOp (.move [] ⟨2, 2, Facts.mtPlaceFlat, 0#32⟩ (str "*"))) = false ∧
+    dataSafe exEnv (oneOp (.result [] (str "c3"))) = false ∧ dataSafe exEnv (oneOp (.moveNumber [] (2 ^ 63))) = false ∧
+    movesSafe exEnv (oneOp (.result [] (str "c3"))) = true := by decide
+
+/-- the window clause at its boundary: a comment of 65534 bytes comes back, one of 65535 bytes is `ErrTooLong`;
+a move with 65533 modifiers (token of 65535 bytes) comes back, with 65534 it is `ErrTooLong` -/
+example :
+    parsePTN exEnv (render exEnv (oneOp (.comment [] (List.replicate 65534 120)))) =
+      .ok ⟨(oneOp (.comment [] (List.replicate 65534 120))).tags,
+           (oneOp (.comment [] (List.replicate 65534 120))).ops.map (withSrc exEnv)⟩ ∧
+    parsePTN exEnv (render exEnv (oneOp (.comment [] (List.replicate 65535 120)))) =
+      .error (.illegal "bufio.Scanner: token too long") ∧
+    parsePTN exEnv (render exEnv (oneOp (.move [] ⟨2, 2, Facts.mtPlaceFlat, 0#32⟩ (List.replicate 65533 33)))) =
+      .ok ⟨(oneOp (.move [] ⟨2, 2, Facts.mtPlaceFlat, 0#32⟩ (List.replicate 65533 33))).tags,
+           (oneOp (.move [] ⟨2, 2, Facts.mtPlaceFlat, 0#32⟩ (List.replicate 65533 33))).ops.map (withSrc exEnv)⟩ ∧
+    parsePTN exEnv (render exEnv (oneOp (.move [] ⟨2, 2, Facts.mtPlaceFlat, 0#32⟩ (List.replicate 65534 33)))) =
+      .error (.illegal "bufio.Scanner: token too long") := by
+  have hm : ∀ op, opMove exEnv op = true → movesSafe exEnv (oneOp op) = true := by
+    intro op h
+    simp only [movesSafe, oneOp, List.all_cons, List.all_nil, Bool.and_true, h, Bool.and_eq_true]
+    decide
+  have hsh : ∀ op, opShape op = true → (oneOp op).ops.all opShape = true := by
+    intro op h
+    simp only [oneOp, List.all_cons, List.all_nil, Bool.and_true, h, Bool.and_eq_true]
+    decide
+  have hc : ∀ n, opShape (.comment [] (List.replicate n 120)) = true := by
+    intro n
+    simp only [opShape, List.all_eq_true, List.mem_replicate]
+    rintro b ⟨_, rfl⟩; decide
+  have hmv : ∀ n, opShape (.move [] ⟨2, 2, Facts.mtPlaceFlat, 0#32⟩ (List.replicate n 33)) = true := by
+    intro n
+    simp only [opShape, List.all_eq_true, List.mem_replicate]
+    rintro b ⟨_, rfl⟩; decide
+  have hfm : (exEnv.formatMove ⟨2, 2, Facts.mtPlaceFlat, 0#32⟩).length = 2 := by decide
+  refine ⟨?_, ?_, ?_, ?_⟩
+  · rw [render_parse_window exEnv _ (by decide) (hsh _ (hc _)) (hm _ rfl), if_pos]
+    simp only [oneOp, List.all_cons, List.all_nil, opFits, List.length_replicate, maxScanTokenSize]
+    decide
+  · rw [render_parse_window exEnv _ (by decide) (hsh _ (hc _)) (hm _ rfl), if_neg]
+    simp only [oneOp, List.all_cons, List.all_nil, opFits, List.length_replicate, maxScanTokenSize]
+    decide
+  · rw [render_parse_window exEnv _ (by decide) (hsh _ (hmv _)) (hm _ (by decide)), if_pos]
+    simp only [oneOp, List.all_cons, List.all_nil, opFits, List.length_replicate, maxScanTokenSize, hfm]
+    decide
+  · rw [render_parse_window exEnv _ (by decide) (hsh _ (hmv _)) (hm _ (by decide)), if_neg]
+    simp only [oneOp, List.all_cons, List.all_nil, opFits, List.length_replicate, maxScanTokenSize, hfm]
+    decide
+
+/-- moves the real `FormatMove` cannot carry are outside `moveSafe` (`i1`: off the board; move type 0: printed as
+a flat placement; a slide without drops: read back with one drop), a slide of legal shape is inside -/
+example : moveSafe (realEnv #[]) ⟨8, 0, Facts.mtPlaceFlat, 0#32⟩ = false ∧ moveSafe (realEnv #[]) ⟨0, 0, 0, 0#32⟩ = false ∧
+    moveSafe (realEnv #[]) ⟨1, 1, Facts.mtSlideLeft, 0#32⟩ = false ∧
+    moveSafe (realEnv #[]) ⟨1, 1, Facts.mtSlideLeft, 0x1#32⟩ = true := by decide
+
+/-- the spelled-out scanner on a small input, read one byte at a time and read in one piece:
+two moves, a comment, a move number -/
+example :
+    (readMovesScanner exEnv (fun _ => 1) 60 0 (ScanState.init (str " a1 b2? {x y}\n2."))).toOption.map (·.map Op.clearSrc) =
+      some [.move [] ⟨0, 0, Facts.mtPlaceFlat, 0#32⟩ [], .move [] ⟨1, 1, Facts.mtPlaceFlat, 0#32⟩ [63],
+            .comment [] (str "x y"), .moveNumber [] 2] ∧
+    (readMovesScanner exEnv (fun _ => 4096) 60 0 (ScanState.init (str " a1 b2? {x y}\n2."))).toOption.map (·.map Op.clearSrc) =
+      some [.move [] ⟨0, 0, Facts.mtPlaceFlat, 0#32⟩ [], .move [] ⟨1, 1, Facts.mtPlaceFlat, 0#32⟩ [63],
+            .comment [] (str "x y"), .moveNumber [] 2] := by decide
+
+/-- `[N "x"y"]`: the value `x"y` is what `ParsePTN` returns, and `Render` writes it as `"xy"` -/
+theorem render_parse_bytes_statement_false : ¬ render_parse_bytes_statement exEnv := by
+  intro h
+  have hp : parsePTN exEnv (str "[N \"x\"y\"]") = .ok (oneTag "N" "x\"y") := by rfl
+  obtain ⟨g, hg, ht, _⟩ := h _ _ hp
+  have hr : parsePTN exEnv (render exEnv (oneTag "N" "x\"y")) = .ok (oneTag "N" "xy") := by rfl
+  rw [hr] at hg
+  injection hg with hg
+  subst hg
+  revert ht
+  decide
 
 end C12
